@@ -25,11 +25,21 @@
 
 static const uint64_t STOP = ~0ULL;
 static uint64_t item(int p, uint64_t seq) { return ((uint64_t)p << 40) | seq; }
-static void on_alarm(int) {  printf("stalled hard limit: the program did not finish within 120 s of real time\nresult hung\n"); fflush(stdout); _exit(0); }
+static std::atomic<uint64_t> *g_sent_probe = nullptr, *g_recvd_probe = nullptr;
+static long alarm_seen = -1; static int alarm_ticks = 0;
+// every 10 s: no progress since the last tick = stuck (the in-program watchdog cannot run if its own vCPU is stuck);
+// still progressing after 300 s = the machine is too loaded to judge (result slow: inconclusive, not a violation)
+static void on_alarm(int) {
+    long p = (long)(g_sent_probe ? g_sent_probe->load() + g_recvd_probe->load() : 0);
+    if (p == alarm_seen) {  printf("stalled no progress for 10 s of real time (progress=%ld)\nresult hung\n", p); fflush(stdout); _exit(0); }
+    alarm_seen = p;
+    if (++alarm_ticks >= 30) {  printf("result slow\n"); fflush(stdout); _exit(0); }
+    alarm(10);
+}
 static void on_segv(int s) { printf("result crashed signal=%d\n", s); fflush(stdout); _exit(0); }
 
 static int run_program(const std::vector<std::string>& lines) {
-    signal(SIGSEGV, on_segv); signal(SIGABRT, on_segv); signal(SIGALRM, on_alarm); alarm(120);
+    signal(SIGSEGV, on_segv); signal(SIGABRT, on_segv); signal(SIGALRM, on_alarm); alarm(10);
     set_log_output(log_output_null);
     size_t cap = 1; int P = 1, Cn = 1; uint64_t M = 1000, gap = 0; std::string endmode = "close";
     for (auto& l : lines) { std::istringstream is(l); std::string w; is >> w; if (w == "chan") { is >> cap >> P >> Cn >> M >> gap >> endmode; printf("%s\n", l.c_str()); } }
@@ -37,7 +47,7 @@ static int run_program(const std::vector<std::string>& lines) {
     auto ch = new photon::channel<uint64_t>(cap);
     std::vector<std::vector<uint64_t>> got(Cn);
     std::vector<uint64_t> sent_ok(P, 0);
-    std::atomic<uint64_t> sent{0}, recvd{0}; std::atomic<int> sdone{0}, rdone{0};
+    std::atomic<uint64_t> sent{0}, recvd{0}; std::atomic<int> sdone{0}, rdone{0}; g_sent_probe = &sent; g_recvd_probe = &recvd;
     std::vector<std::thread> ts;
     for (int c = 0; c < Cn; ++c) ts.emplace_back([&, c] {
         photon::init(photon::INIT_EVENT_EPOLL, photon::INIT_IO_NONE);
